@@ -306,6 +306,9 @@ static bool builder_cell(Cell c, bool count = true) {
       ok = !st.violation(std::string("C02:builder-setkey-table:") + (want ? "refused-documented-pair" : "accepted-undocumented-pair"), std::string("jwt_builder_setkey(") + alg_label(c.E) + ", " + (kc ? kc->label : "NULL") + (c.pubkey ? " [public]" : "") + ") returned " + (admitted ? "0" : "non-zero"), cell_json(c));
     if (!admitted) { jwt_builder_free(b); if (count) { st.evaluations++; st.cls("builder-setkey-refused"); } return ok; }
   }
+  // every second cell: the application has put an "alg" member of its own into the header (by header_set, or from the callback would be the
+  // same object): the token's alg is still the one resolved from key and explicit algorithm
+  if (((c.kc + c.E + c.route) & 1) == 0) { jwt_value_t pv = val_str("alg", (c.E & 2) ? "HS256" : "ES512", 1); jwt_builder_header_set(b, &pv); if (count) st.cls("builder-cells-with-a-preset-alg-header"); }
   char *out = jwt_builder_generate(b);
   if (count) { st.evaluations++; st.cls(out ? "generate-token" : "generate-null"); }
   if (!PROP_C03) { std::string pv = probe_verdict(); if (!pv.empty()) ok = !st.violation("C02:generate:" + pv, "during jwt_builder_generate the provider's " + pv, cell_json(c)) && ok; }
